@@ -163,6 +163,7 @@ _RENDERED = _folds.PrefixConcat(
     _folds.PrefixSum('rendered_len', lambda V, zi: _z3.Length(_z3.Concat(V.field('c_prefix', zi), V.field('text', zi),
                                                                          V.field('c_suffix', zi)))))
 FOLD_MODELS['rendered'] = _folds.whole_model(_RENDERED)
+FOLD_MODELS['chunk_index'] = _folds.locate_model(_OFFSET, None)
 FOLD_MODELS['plain_upto'] = _folds.prefix_model(_PLAIN)
 
 
@@ -256,7 +257,7 @@ def wf_chunks_any(chunks):
 
 
 TEXT_MODELS = {k: FOLD_MODELS[k] for k in ('offset', 'total', 'plain', 'plain_upto')}
-COLOR_MODELS = dict(TEXT_MODELS, color_at=FOLD_MODELS['color_at'])
+COLOR_MODELS = dict(TEXT_MODELS, color_at=FOLD_MODELS['color_at'], chunk_index=FOLD_MODELS['chunk_index'])
 
 
 from pyvc.verify import parse_expr as _parse      # noqa
@@ -274,6 +275,83 @@ def pad_like_str(shown, n, fill, align, width):
     if align == '^':
         return f * (pad // 2) + shown + f * (pad - pad // 2)
     return shown + f * pad
+
+
+def chunk_index(chunks, pos):
+    """index of the chunk holding the visible character at position pos (0 <= pos < total), else None"""
+    off = 0
+    for k, c in enumerate(chunks):
+        if pos < off + len(c.text):
+            return k
+        off = off + len(c.text)
+    return None
+
+
+def same_picture(a, b):
+    """two chunk lists show the same characters in the same colours"""
+    return (plain(a) == plain(b) and total(a) == total(b)
+            and all(color_at(a, q) == color_at(b, q) for q in range(total(a))))
+
+
+def lemma_canonical(a, b):
+    """LEMMA (canonical form).  Two well-formed chunk lists that show the same characters in the same colours are the
+    same list, chunk by chunk.  The body is the proof: a ghost walk over `a` whose loop invariant is
+    `offset(a, k) == offset(b, k)`; every `assert` is an obligation (an AssertionError must be impossible) and, once
+    proved, a fact for the rest of the path - the hints instantiate the colour hypothesis at the chunk boundaries."""
+    for k, ca in enumerate(a):
+        o = offset(a, k)
+        assert k < len(b)
+        cb = b[k]
+        assert color_at(a, o) == ca.c_prefix and color_at(b, o) == cb.c_prefix
+        assert ca.c_prefix == cb.c_prefix
+        la = len(ca.text)
+        lb = len(cb.text)
+        if la < lb:
+            # the character after chunk k of `a` belongs to chunk k+1 of `a` (another colour) but still to chunk k of `b`
+            assert k + 1 < len(a)
+            assert color_at(a, o + la) == a[k + 1].c_prefix and color_at(b, o + la) == cb.c_prefix
+            assert False
+        if lb < la:
+            assert k + 1 < len(b)
+            assert color_at(b, o + lb) == b[k + 1].c_prefix and color_at(a, o + lb) == ca.c_prefix
+            assert False
+        assert plain_upto(a, k + 1) == plain_upto(b, k + 1)
+        assert ca.text == cb.text
+    if len(a) < len(b):
+        extra = b[len(a)]           # a further chunk of `b` would add characters that `a` does not have
+        assert len(extra.text) > 0
+        assert False
+    return len(a) == len(b)
+
+
+def same_fields(x, y):
+    return x.c_prefix == y.c_prefix and x.text == y.text and x.c_suffix == y.c_suffix
+
+
+def _chunk_eq_result(bound):
+    """result of chunk == chunk at a call site: the formula itself (no fresh symbol), so that it can stand inside a
+    quantified body"""
+    from pyvc.verify import parse_expr, eval_clause
+    from pyvc.interp import Env
+    from pyvc.values import SBool
+
+    def mk(I, name):
+        t = eval_clause(I, "same_fields(self, other)", Env(dict(bound), pyglobals=G))
+        return t if isinstance(t, bool) else SBool(t)
+    return T.custom('the field-wise comparison', mk)
+
+
+def lemma_pointwise(a, b, q):
+    """LEMMA.  Chunk lists that agree chunk by chunk (colour and text) have the same plain text and the same colour at
+    every position q.  Ghost walk with invariant `offsets and plain prefixes agree`."""
+    for k, ca in enumerate(a):
+        cb = b[k]
+        assert ca.text == cb.text
+    if 0 <= q < total(a):
+        ka = chunk_index(a, q)
+        assert offset(b, ka) <= q < offset(b, ka + 1)       # the same chunk of `b` holds position q
+        assert color_at(a, q) == color_at(b, q)
+    return plain(a) == plain(b) and total(a) == total(b)
 
 
 def ANYCHUNKS():
@@ -527,6 +605,38 @@ UNBOUNDED_CONTRACTS = [
              requires=["wf_any(self)", "fill == '' or align != ''"],
              ensures={'padding': "result == pad_like_str(rendered(self.chunks), self.scrlen, fill, align, width)"},
              symlist_models=FOLD_MODELS, raises={}, modifies=[]),
+    Contract(__name__, 'lemma_canonical', name='lemma_canonical/any_length', prop=PROP, spec_globals=G, level='top', kind='lemma',
+             params={'a': ANYCHUNKS(), 'b': ANYCHUNKS()},
+             requires=["wf_chunks_any(a)", "wf_chunks_any(b)", "same_picture(a, b)"],
+             ensures={'same_length': "result and len(a) == len(b)",
+                      'same_chunks': "all(x.c_prefix == y.c_prefix and x.text == y.text for x, y in zip(a, b))"},
+             invariants={0: {'inv': "__i <= len(b) and offset(a, __i) == offset(b, __i) "
+                                    "and plain_upto(a, __i) == plain_upto(b, __i) "
+                                    "and all(a[j].c_prefix == b[j].c_prefix and a[j].text == b[j].text for j in range(__i))"}},
+             symlist_models=COLOR_MODELS, raises={}, modifies=[]),
+    Contract(__name__, 'lemma_pointwise', name='lemma_pointwise/any_length', prop=PROP, spec_globals=G, level='top', kind='lemma',
+             params={'a': ANYCHUNKS(), 'b': ANYCHUNKS(), 'q': T.int},
+             requires=["len(a) == len(b)", "all(same_fields(x, y) for x, y in zip(a, b))"],
+             ensures={'same_text': "result and plain(a) == plain(b) and total(a) == total(b)",
+                      'same_colour_at_q': "not (0 <= q < total(a)) or color_at(a, q) == color_at(b, q)"},
+             invariants={0: {'inv': "offset(a, __i) == offset(b, __i) and plain_upto(a, __i) == plain_upto(b, __i) "
+                                    "and all(offset(a, j) == offset(b, j) for j in range(__i + 1))"}},
+             symlist_models=COLOR_MODELS, raises={}, modifies=[]),
+    Contract(M, '_CHTextChunk.__eq__', name='_CHTextChunk.__eq__/chunk', prop=PROP, spec_globals=G, level='sup',
+             params={'self': CHUNK(), 'other': T.one_of(CHUNK(), T.same_as('self'))},
+             ensures={'fieldwise': "result == same_fields(self, other)"},
+             result_spec=_chunk_eq_result, raises={}, modifies=[]),
+    Contract(M, 'CHText.__eq__', name='CHText.__eq__/text/any_length', prop=PROP, spec_globals=G, level='top',
+             params={'self': T.one_of(ANYTEXT()), 'other': T.one_of(ANYTEXT()), 'p': T.int},
+             requires=["wf_any(self)", "wf_any(other)", "all_wfc(self.chunks)", "all_wfc(other.chunks)"],
+             ensures={
+                 'equal_texts_show_the_same': "not result or (plain(self.chunks) == plain(other.chunks) and "
+                                              "(not (0 <= p < self.scrlen) or color_at(self.chunks, p) == color_at(other.chunks, p)))",
+                 'same_picture_compares_equal': "not same_picture(self.chunks, other.chunks) or result",
+             },
+             lemmas=[('lemma_canonical/any_length', {'a': 'self.chunks', 'b': 'other.chunks'}),
+                     ('lemma_pointwise/any_length', {'a': 'self.chunks', 'b': 'other.chunks', 'q': 'p'})],
+             symlist_models=COLOR_MODELS, raises={}, modifies=[]),
     Contract(M, 'CHText.fixed_len', name='CHText.fixed_len/any_length', prop=PROP, spec_globals=G, level='top',
              params={'self': T.one_of(ANYTEXT()), 'desired_len': T.int, 'p': T.int},
              requires=["wf_any(self)", "desired_len >= 0"],
@@ -726,6 +836,7 @@ USES = {'CHText.__getitem__/index/any_length': ['CHText._get_chunk_pos/any_lengt
                                                        'CHText.__init__/any_length'],
         'CHText.fixed_len/any_length': ['CHText.__getitem__/slice/any_length', 'CHText.__getitem__/slice/colors/any_length',
                                         'CHText.__add__/any_length', 'CHText.__len__/any_length'],
+        'CHText.__eq__/text/any_length': ['_CHTextChunk.__eq__/chunk'],
         'CHText.__iadd__/list/any_length': _IADD_ALL,
         'CHText.__iadd__/self/any_length': ['CHText._append_chunk/any_length'],
         'CHText.__init__/any_length': _IADD_ANY, 'CHText.__init__/chunks/any_length': _IADD_ANY, 'CHText.__add__/any_length': _IADD_ANY + ['CHText.__init__/any_length'],
@@ -733,6 +844,14 @@ USES = {'CHText.__getitem__/index/any_length': ['CHText._get_chunk_pos/any_lengt
         'CHText.join/any_length': _IADD_ANY + ['CHText.__init__/any_length']}
 ASSUMED_LIBRARY = []
 CANARIES = [
+    {'name': 'anylen_eq_ignores_colour', 'module': M, 'function': 'CHText.__eq__', 'verify': 'CHText.__eq__/text/any_length',
+     'old': 'return all(p0 == p1 for p0, p1 in zip(self.chunks, other.chunks))',
+     'new': 'return all(p0.text == p1.text for p0, p1 in zip(self.chunks, other.chunks))',
+     'unproved_is_enough': True, 'expect': 'C08.CHText.__eq__/text/any_length.equal_texts_show_the_same'},
+    {'name': 'anylen_eq_never_equal_when_many_chunks', 'module': M, 'function': 'CHText.__eq__', 'verify': 'CHText.__eq__/text/any_length',
+     'old': 'return all(p0 == p1 for p0, p1 in zip(self.chunks, other.chunks))',
+     'new': 'return len(self.chunks) < 3 and all(p0 == p1 for p0, p1 in zip(self.chunks, other.chunks))',
+     'unproved_is_enough': True, 'expect': 'C08.CHText.__eq__/text/any_length.same_picture_compares_equal'},
     {'name': 'anylen_format_centre_extra_char_left', 'module': M, 'function': 'CHText.__format__', 'verify': 'CHText.__format__/any_length',
      'old': 'prefix_width = filler_width // 2', 'new': 'prefix_width = filler_width - filler_width // 2',
      'combos': ["align:const('^')", 'width:const(10)'], 'unproved_is_enough': True,
